@@ -73,9 +73,9 @@ Definition run_case (c : case) : tm :=
   let '(t, cls, seed) := c in
   let ls := mk_layers t cls in
   let scheds := mapi (fun li l => sched_for seed li (snd l)) ls in
-  let par := dump_font t (erase_font (snd (par_font scheds [] ls))) in
-  let sq := dump_font t (erase_font (snd (seq_font [] ls))) in
-  let sp := dump_font t (spec_font ls) in
+  let par := dump_font t (erase_font (snd (par_font ascii_lower scheds [] ls))) in
+  let sq := dump_font t (erase_font (snd (seq_font ascii_lower [] ls))) in
+  let sp := dump_font t (spec_font ascii_lower ls) in
   if tm_eqb par sq && tm_eqb par sp then par else L_ [N_ 666; par; sq; sp].
 
 (** how racy the schedules of a case were: number of [get]s that returned the caller's own
